@@ -74,6 +74,9 @@ def split_commas(toks):
     return parts
 
 
+MP = set()   # (key, mode) of targets that carry the must-panic option
+
+
 def target_contracts(key, kind):
     """-> {mode or None: (param names, binder, [requires parts], [ensures parts])} from the non-assumed overlay entries"""
     res = {}
@@ -122,6 +125,8 @@ def target_contracts(key, kind):
             p = [t for t in p if t not in ('&', 'mut')]
             params.append(p[0])
         m = e.opts.get('mode')
+        if 'mp' in e.opts:
+            MP.add((key, m))
         cur = res.setdefault(m, (params, binder, [], []))
         assert cur[0] == params and cur[1] == binder, (key, cur, params, binder)
         for r_ in req:
@@ -173,7 +178,9 @@ def gen_one(T, tr, m):
         if req:
             cl += ' requires ' + ', '.join(sub(x) for x in req)
         cl += ' ensures ' + ', '.join(sub(x) for x in ens)
-        opts = 'ext_trait' + (f' mode={mo}' if mo else '')
+        tkey = f'{T}::{callee}'
+        has_mp = ((tkey, mo) in MP or (tkey, None) in MP) and any(x and x[0] == 'bn_nopanic' for x in req)
+        opts = 'ext_trait' + (f' mode={mo}' if mo else '') + (' mp' if has_mp else '')
         out += f'//! fn {key} [{opts}]\n{sigtxt}\n    {GHOST_OPEN}{cl} {GHOST_CLOSE}\n{join(body).strip()}\n'
     return out
 
